@@ -50,6 +50,8 @@ type Chan struct {
 	closed bool
 	buf    []Value
 	cap    int
+	timer  bool // the C of a time.Timer / time.After: "fires" when time passes (see waitTimer)
+	armed  bool
 }
 
 type mapEntry struct {
